@@ -702,8 +702,8 @@ fn penalty_for_assigned_course_choice(
 ) -> u32 {
     course_choices
         .iter()
-        .position(|c| c.course_index == assigned_course)
-        .map(penalty_for_choice)
+        .find(|c| c.course_index == assigned_course)
+        .map(|c| c.penalty)
         .unwrap_or(penalty_for_unchosen_course(track_data))
 }
 
